@@ -249,6 +249,11 @@ def main(argv):
         pf = check_props_file(prop) if okc else {"ok": False, "theorems": [], "print_assumptions": 0, "closed": 0, "axioms": [], "log": outc[-3000:]}
         forb = scan_forbidden()
         okd, outd = build_driver() if okc else (False, "coq build failed")
+        if not okc and os.path.exists(os.path.join(ROOT, "ocaml", "driver")):
+            # a proof obligation (typically over regenerated facts) no longer compiles: still search for a
+            # failing input with the model/oracle extracted by the last successful build
+            okd, outd = True, ""
+            notes.append("Coq build failed; cases judged by the previously extracted model and oracle")
         okh, outh = build_gen_and_harness()
         if prop.get("race") and tier == "thorough":
             okr, outr = build_gen_and_harness(race=True, name="zapdrive-race")
